@@ -253,10 +253,10 @@ inline std::string match_form(const xdb::Form& G, const XInst& x, const uint8_t*
       default: break;
     }
     if (!flag && !sg) break;
-    if (p9B && flag != &p9B) XT_FAIL("prefix %02X after FWAIT: it would apply to the following instruction only if placed after 9B", b);
     if (flag) { if (*flag) XT_FAIL("duplicate prefix %02X", b); *flag = true; }
     else { if (seg) XT_FAIL("two segment prefixes"); seg = sg; }
     c.get();
+    if (flag == &p9B) break;      // FWAIT ends the first group: what follows belongs to the x87 instruction (parsed below)
   }
   if (need9B) {
     // FWAIT is an instruction of its own: every prefix of the x87 instruction must come AFTER it
